@@ -145,6 +145,22 @@ EXTRA3 = {
 }
 for _pid, (_t, _n) in EXTRA3.items():
     EXTRA[_pid] = (EXTRA.get(_pid, ("", ""))[0] + _t, EXTRA.get(_pid, ("", ""))[1] + _n)
+EXTRA4 = {
+ "C01": (" A time grid handed over as a pandas Series with default labels (label-based element access, label-aligned arithmetic).", ""),
+ "C02": (" The user-diffusivity branch with an int64 pseudopressure column.", ""),
+ "C03": (" Discrete mass balance on an object re-used after its fluid was replaced.", ""),
+ "C06": (" Two calls with the temperatures as 0-d arrays: left alone, and the second call is a root at its own T_r.", ""),
+ "C07": (" The oil identity on an int64 pressure array and with the FVF returned by the array call.", ""),
+ "C12": (" Every B_o array element equals the scalar call at that pressure (arrays below, above and straddling the bubble point).", ""),
+ "C13": (" The defining combination with the standard conditions left to their defaults on both sides.", ""),
+ "C14": (" A second call with equal arguments after the caller edited the first table returns the Brooks-Corey table.", ""),
+ "C15": (" The mapping of reference densities is read by key (another insertion order).", ""),
+ "C16": (" A no-water table (Sw = 0.0 exactly) with a rel-perm table measured at connate water 0.1.", ""),
+ "C18": (" A production table whose row labels repeat (two exports concatenated).", ""),
+ "C20": (" The square-root transform for a symbolic a > 0 however small (no snapping of small values).", ""),
+}
+for _pid, (_t, _n) in EXTRA4.items():
+    EXTRA[_pid] = (EXTRA.get(_pid, ("", ""))[0] + _t, EXTRA.get(_pid, ("", ""))[1] + _n)
 for _pid, (_t, _n) in EXTRA.items():
     CHECKS[_pid]["text"] += _t
     CHECKS[_pid]["note"] += _n
